@@ -22,7 +22,8 @@ THEOREMS = ["C15_syms_are_D4", "C15_sym_square_bijection", "C15_index_guard", "C
             "C15_move_commutes", "C15_legality_invariant", "C15_winner_invariant",
             "C15_ply_side_reserves_invariant", "C15_symmetries_spec", "C15_group_action", "C15_example",
             "C15_table_closed_under_syms", "C15_transform_move_injective", "C15_legal_moves_transform",
-            "C15_legal_moves_transform_perm", "C15_rulebook_step_transform", "C15_rulebook_moves_transform"]
+            "C15_legal_moves_transform_perm", "C15_rulebook_step_transform", "C15_rulebook_moves_transform",
+            "C15_source_symmetries_const", "C15_source_transform_position_eq", "C15_source_transform_position_never_crashes", "C15_source_transform_move_eq", "C15_source_symmetries_eq", "C15_source_move_commutes", "C15_source_winner_invariant", "C15_source_symmetries_spec"]
 MODEL_TARGETS = ["model/Tak.vo", "model/Road.vo", "model/Symmetry.vo", "model/Harness.vo", "model/Lit.vo"]
 TRUSTED_BASE = [
     "numpy: matmul of small integer matrices is exact; .astype(int) of integer-valued floats < 2^53 is the identity; "
@@ -658,3 +659,21 @@ def replay(run, rp):
         failing, shard_fail, _ = cs.run()
         out.update({"violates": bool(failing or shard_fail or crashes), "model_disagrees": bool(failing)})
     return out
+
+
+# ---- translator tie (T): the C15_source_* theorems quantify over functions REGENERATED FROM THE SOURCE; t15's
+# correspondence validates the semantics library and the translation scheme on every run.
+from . import t15 as _t15  # noqa: E402
+
+MODEL_TARGETS = sorted(set(list(MODEL_TARGETS) + list(_t15.MODEL_TARGETS)))
+TRUSTED_BASE = list(TRUSTED_BASE) + list(getattr(_t15, "TRUSTED_BASE", []))
+_c15_correspondence = correspondence
+
+
+def pregen(run):
+    return _t15.pregen(run)
+
+
+def correspondence(run):
+    _c15_correspondence(run)
+    _t15.correspondence(run)
